@@ -508,6 +508,144 @@ def tie_nested(ctx):
             ctx.broke(f"correspondence unpack/mutateAt vs unpack_guppy_object: model {mv}, real {rv} on `{req}`")
 
 
+# ---------------------------------------------------------------------- linear leaves at every nesting position
+# Leaves: I int, Q qubit, Z array[qubit, 0] (zero-length: `unpack_guppy_object` hands the array object itself out),
+# Y array[int, 0] (droppable, not copyable), M empty struct.  Containers: A (array of 2), S (struct), T (tuple).
+# A value of such a type arrives as an owned parameter, a borrowed parameter or the result of a call; every linear
+# leaf is then consumed, borrowed, leaked, consumed twice or returned.  (Generic-size arrays cannot reach a comptime
+# function: "Generic comptime functions" are rejected; noted in notes/C22.md.)
+LEAF_TY = {"I": "int", "Q": "qubit", "Z": "array[qubit, 0]", "Y": "array[int, 0]", "M": "Emp"}
+LEAF_FLAGS = {"I": (1, 1), "Q": (0, 0), "Z": (0, 0), "Y": (0, 1), "M": (1, 1)}
+LIN_PRELUDE = (
+    "from guppylang.std.quantum import qubit, h, discard\n"
+    "@guppy.struct\nclass Emp:\n    pass\n"
+    "@guppy.declare\ndef consume(qs: array[qubit, 0] @owned) -> None: ...\n"
+    "@guppy.declare\ndef peek(qs: array[qubit, 0]) -> None: ...\n"
+    "@guppy.declare\ndef consume_y(ys: array[int, 0] @owned) -> None: ...\n"
+)
+
+
+class LinTy(TyGen):
+    def ty(self, sh):
+        if sh[0] in LEAF_TY:
+            return LEAF_TY[sh[0]]
+        return super().ty(sh)
+
+
+def lin_shapes(rng, depth):
+    if depth == 0 or rng.random() < 0.25:
+        return (rng.choice(["Q", "Z", "Z", "I", "Y", "M"]),)
+    k = rng.choice(["A", "S", "T", "S", "T"])
+    if k == "A":
+        return ("A", lin_shapes(rng, depth - 1))
+    return (k, lin_shapes(rng, depth - 1), lin_shapes(rng, depth - 1))
+
+
+def lin_leaves(sh, expr):
+    """[(leaf kind, access expression)] in unpacking order"""
+    if sh[0] in LEAF_TY:
+        return [(sh[0], expr)]
+    if sh[0] == "A":
+        return lin_leaves(sh[1], expr + "[0]") + lin_leaves(sh[1], expr + "[1]")
+    sub = (".a", ".b") if sh[0] == "S" else ("[0]", "[1]")
+    return lin_leaves(sh[1], expr + sub[0]) + lin_leaves(sh[2], expr + sub[1])
+
+
+def lin_copyable(sh):
+    if sh[0] in LEAF_TY:
+        return LEAF_FLAGS[sh[0]][0] == 1
+    return sh[0] != "A" and all(lin_copyable(c) for c in sh[1:])
+
+
+def gen_linear_case(rng):
+    sh = lin_shapes(rng, rng.choice([0, 1, 1, 2, 2, 3]))
+    tg = LinTy()
+    T = tg.ty(sh)
+    source = rng.choice(["owned", "owned", "borrowed", "call"])
+    if lin_copyable(sh) and source != "call":
+        source = "owned"            # a copyable argument is never borrowed
+    ops, body, n = [], [], 0
+    leaves = []
+    for kind, expr in lin_leaves(sh, "v"):
+        c, d = LEAF_FLAGS[kind]
+        ops.append(f"c{c}{d}")
+        leaves.append((kind, expr, n))
+        n += 1
+    decl = ""
+    if source == "call":
+        decl = f"@guppy.declare\ndef mk() -> {T}: ...\n"
+        body.append("v = mk()")
+        params = ""
+    else:
+        params = f"v: {T}" + (" @owned" if source == "owned" and not lin_copyable(sh) else "")
+    ret, ret_leaf = "None", None
+    lin = [l for l in leaves if l[0] in ("Q", "Z", "Y")]
+    if lin and source != "borrowed" and rng.random() < 0.25:
+        ret_leaf = rng.choice(lin)
+    for kind, expr, i in leaves:
+        if kind not in ("Q", "Z", "Y") or (ret_leaf and i == ret_leaf[2]):
+            continue
+        act = rng.choice(["consume", "consume", "consume", "consume", "borrow+consume", "borrow+consume", "leak", "leak", "borrow+leak", "twice"] if source != "borrowed"
+                         else ["none", "none", "borrow", "consume"])
+        use_fn = {"Q": "discard", "Z": "consume", "Y": "consume_y"}[kind]
+        if kind == "Y" and "borrow" in act:
+            act = "consume"
+        if "borrow" in act:
+            body.append(f"{'h' if kind == 'Q' else 'peek'}({expr})")
+            ops.append(f"b{i}")
+            n += 1
+        if "consume" in act or act == "twice":  # "borrow+leak": borrowed, then never consumed
+            body.append(f"{use_fn}({expr})")
+            ops.append(f"u{i}")
+        if act == "twice":
+            body.append(f"{use_fn}({expr})")
+            ops.append(f"u{i}")
+    if ret_leaf:
+        body.append(f"return {ret_leaf[1]}")
+        ops.append(f"u{ret_leaf[2]}")
+        ret = LEAF_TY[ret_leaf[0]]
+    if source == "borrowed":
+        for kind, expr, i in leaves:        # the argument is rebuilt and handed back: every leaf is used
+            ops.append(f"u{i}")
+    if not body:
+        body.append("pass")
+    src = (LIN_PRELUDE + "".join(tg.classes) + decl + f"@guppy.comptime\ndef f({params}) -> {ret}:\n"
+           + "".join("    " + l + "\n" for l in body))
+    return src, "trace " + " ".join(ops), bool(lin)
+
+
+def tie_nested_linear(ctx):
+    cases = []
+    corpus = os.path.join(vlib.VERIF, "corpus", "c22_linear")
+    if os.path.isdir(corpus):
+        for fn in sorted(os.listdir(corpus)):
+            for r in json.load(open(os.path.join(corpus, fn))):
+                cases.append((r["src"], r["ops"], True))
+    if ctx.replay_in and ctx.replay_in.get("replay", {}).get("family") == "linear":
+        cases.append((ctx.replay_in["replay"]["src"], ctx.replay_in["replay"]["ops"], True))
+    for _ in range(ctx.n(120, 1500)):
+        cases.append(gen_linear_case(ctx.rng))
+    seen, uniq = set(), []
+    for c in cases:
+        if c[0] not in seen:
+            seen.add(c[0])
+            uniq.append(c)
+    model = ctx.driver(DRIVER, [c[1] for c in uniq])
+    for (src, ops, nt), mv in zip(uniq, model):
+        rv, detail = real_verdict(src)
+        body = src[len(LIN_PRELUDE):]
+        zero = "array[qubit, 0]" in body
+        ctx.count(["linear", body], nontrivial=nt, kind=f"linear{'0' if zero else ''}:{mv}/{rv.split(':')[0]}")
+        rep = {"family": "linear", "src": src, "ops": ops, "model": mv, "real": rv, "detail": detail}
+        if rv.startswith("crash") or rv.startswith("loadfail"):
+            ctx.violation("linear:" + body, f"the tracer crashes ({rv}: {detail}) on\n{body}", rep)
+        elif rv != mv:
+            orc = oracle(ops)
+            if rv != orc:
+                ctx.violation("linear:" + body, f"ownership verdict of the real tracer is `{rv}` ({detail}) but the property requires `{orc}` for\n{body}", rep)
+            ctx.broke(f"correspondence Model/TraceOwn.lean vs tracer (nested linear leaves): model {mv}, real {rv} on ops `{ops}`")
+
+
 def tie(ctx):
     # ---- frozenlist: oracle for the fixed list of Spec/C22.lean, and the real class's behaviour
     muts = [m for m in list_mutators() if m != "__init__"]
@@ -550,6 +688,7 @@ def tie(ctx):
                 ctx.violation("trace:" + body, f"ownership verdict of the real tracer is `{rv}` ({detail}) but the property requires `{orc}` for\n{body}", rep)
             ctx.broke(f"correspondence Model/TraceOwn.lean vs tracer: model {mv}, real {rv} on ops `{ops}`")
     tie_nested(ctx)
+    tie_nested_linear(ctx)
 
 
 def oracle(line):
